@@ -70,6 +70,21 @@ def table(ctx):
     if ci is None or 'PAIRING_METHODS' not in ci.assigns:
         R.bad(rule, f'{S}.PAIRING_METHODS', 'anchor missing')
         return
+    # the IO capability codes of the specification (Vol 3 Part H 3.5.1) and the application-facing names for them:
+    # the value an application configures is the value announced on the wire and looked up in the method table
+    SPEC_IO = {'DISPLAY_ONLY': 0, 'DISPLAY_YES_NO': 1, 'KEYBOARD_ONLY': 2, 'NO_INPUT_NO_OUTPUT': 3, 'KEYBOARD_DISPLAY': 4}
+    DELEGATE_IO = {'DISPLAY_OUTPUT_ONLY': 'DISPLAY_ONLY', 'DISPLAY_OUTPUT_AND_YES_NO_INPUT': 'DISPLAY_YES_NO', 'KEYBOARD_INPUT_ONLY': 'KEYBOARD_ONLY',
+                   'NO_OUTPUT_NO_INPUT': 'NO_INPUT_NO_OUTPUT', 'DISPLAY_OUTPUT_AND_KEYBOARD_INPUT': 'KEYBOARD_DISPLAY'}
+    io = p.cls('bumble.smp.IoCapability')
+    dio = p.cls('bumble.pairing.PairingDelegate.IoCapability')
+    if io is None or dio is None:
+        R.bad(rule, 'bumble.smp.IoCapability / bumble.pairing.PairingDelegate.IoCapability', 'anchor missing')
+    else:
+        vals = {k: const(v) for k, v in io.assigns.items() if is_const(v)}
+        R.check(vals == SPEC_IO, rule, 'bumble.smp.IoCapability', 'the five IO capability codes of the specification', f'IO capability codes {vals} differ from the specification {SPEC_IO}', p.loc(io.node))
+        got_ = {k: text(v).split('.')[-1] for k, v in dio.assigns.items() if k in DELEGATE_IO}
+        R.check(got_ == DELEGATE_IO, rule, 'bumble.pairing.PairingDelegate.IoCapability', 'each application-facing capability name maps to the capability it describes',
+                f'capability names are crossed: {sorted((k, v) for k, v in got_.items() if DELEGATE_IO.get(k) != v)}: a device configured with one capability announces another, and the association model no longer matches what its user can do', p.loc(dio.node))
     d = ci.assigns['PAIRING_METHODS']
     got = {}
     for k, v in zip(d.keys, d.values):
